@@ -326,6 +326,47 @@ def arith_case(a):
                      "gives a later date")
 
 
+def state_case(a):
+    """a Date rebuilt from its saved state (what pickle, copy.copy, copy.deepcopy and multiprocessing do: __getstate__ then
+    __setstate__ on a blank instance) is the same date: same instant, same clock reading, same label"""
+    ins = EOP_IN + [("d", "int"), ("s", "real")]
+
+    def pre(v):
+        return eop_pre(v) + [v["d"] >= 41317, v["d"] <= 58000, v["s"] >= 0, v["s"] < 86400]
+
+    def run(env, v):
+        m = datemod(env)
+        install_eop(env, m, v)
+        try:
+            x = mk_date(env, m, v["d"], v["s"], a)
+            if env.symbolic:
+                y = m.Date.__new__(m.Date)
+                y.__setstate__(x.__getstate__())
+                same = bool(x == y) and y.scale.name == a
+                return {"instant": instant(env, y) - instant(env, x), "day": val(y.d) - val(x.d), "seconds": val(y.s) - val(x.s),
+                        "equal_and_label": Holds(SB(z3.BoolVal(bool(same))))}
+            import copy
+            import pickle
+            out = {"instant": 0.0, "day": 0.0, "seconds": 0.0}
+            ok = True
+            for y in (pickle.loads(pickle.dumps(x)), copy.deepcopy(x), copy.copy(x)):
+                out["instant"] = max(out["instant"], abs(instant(env, y) - instant(env, x)))
+                out["day"] = max(out["day"], abs(y.d - x.d))
+                out["seconds"] = max(out["seconds"], abs(y.s - x.s))
+                ok = ok and y == x and y.scale.name == a
+            out["equal_and_label"] = Holds(bool(ok))
+            return out
+        finally:
+            if not env.symbolic:
+                restore_eop()
+
+    def ref(env, v, out):
+        return {"instant": 0, "day": 0, "seconds": 0, "equal_and_label": None}
+    return Case(f"state/{a}", ins, run, ref, pre=pre, timeout=60, maxpaths=100, tol=0, abs_tol=1e-9,
+                desc=f"{a}: a Date restored from its saved state (pickle / copy / deepcopy) is the same instant with the same clock "
+                     "reading and label")
+
+
 # --------------------------------------------------------------------------- (e) ordering independent of the label
 def order_case(a, b):
     ins = EOP_IN + [("d1", "int"), ("s1", "real"), ("d2", "int"), ("s2", "real")]
@@ -590,7 +631,7 @@ def all_cases(tier):
     K = bounds(tier)["daterange_unwinding"]
     uni = ["UT1", "GPS", "UTC", "TAI", "TT"]
     cs = [offset_case(a) for a in SCALES] + [scale_case(a, b) for a in uni for b in uni] + [tdb_case(), ut1_day_case()] + \
-        [arith_case(a) for a in ("TAI", "TT", "GPS", "UTC")]
+        [arith_case(a) for a in ("TAI", "TT", "GPS", "UTC")] + [state_case(a) for a in ("UTC", "TT", "UT1", "TAI")]
     cs += [order_case("UTC", "TAI"), order_case("TT", "GPS"), order_case("UT1", "TT"), order_case("UTC", "UTC")]
     for sign in (1, -1):
         for inc in (False, True):
